@@ -666,6 +666,25 @@ func (e *env) refusedAttempts(kinds []string, dir, id string) bool {
 		// wrong-id: the OTHER direction with another ID; duplicate: the SAME
 		// direction with the same ID
 		target, isOut := "", false
+		if k == "io" {
+			// a bidirectional request while a half is attached: both of its sides are rejected
+			io, err := crs.OpenIO(e.addr)
+			if err != nil {
+				e.tl.add("JUNK  io request failed: %v", err)
+				return false
+			}
+			e.keep(io)
+			io.Out.Send("REFUSED-OUTPUT\n")
+			e.tl.add("JUNK  io request /io sent")
+			if _, _, ok := e.notice(`Rejected `, mark, boundNotice*e.mult); !ok {
+				e.res.inconclusive("no 'Rejected' notice for junk %q within %s", k, boundNotice*e.mult)
+				return false
+			}
+			e.refusedConn("refused POST /io (request body not finished)", io)
+			e.res.count("junk_refused_attempts", 1)
+			e.res.count("junk_refused_bidirectional_requests", 1)
+			continue
+		}
 		switch {
 		case k == "wrong-id" && dir == "in":
 			target, isOut = "/o/not-"+id, true
@@ -757,11 +776,11 @@ func (e *env) halfDies(dir, id string, hold time.Duration, end string) bool {
 func junkKinds(j string) []string {
 	switch j {
 	case "wrong-id":
-		return []string{"wrong-id"}
+		return []string{"wrong-id", "io"}
 	case "duplicate":
 		return []string{"duplicate"}
 	case "several":
-		return []string{"wrong-id", "duplicate", "wrong-id"}
+		return []string{"wrong-id", "duplicate", "io", "wrong-id"}
 	}
 	return nil
 }
